@@ -14,6 +14,7 @@
   ('agg', typename, ((field, t), ...))   ('tuple', t...)   ('variant', name, t...)   ('array', t...)
   ('ref', path, 'mut'|'shr')   ('closure', id, ((idx, t), ...))   ('fnitem', name)
   ('discr', t)  ('len', t)  ('elem', coll, idx)  ('proj', t, comp)  ('upd', base, subpath, t)  ('push', coll, t)
+  ('vinsert', coll, idx, t)  ('vremove', coll, idx)
   ('iter', kind, ...)          symbolic iterators       ('Sum', iter_term)  ('at', site, t)
 
 Paths are tuples of components; roots ('obj', n) = pointee of reference parameter n, ('val', n) = by-value
